@@ -37,10 +37,10 @@ Pick(S) == IF Mode = "sim" THEN {R(S)} ELSE S
 Names == CASE Kernel \in {"ref", "cw"} -> {"a", "A", "b"}
            [] Kernel = "defect" -> {"a"}
            [] Kernel \in {"struct", "switch"} -> {"a", "b"}
-           [] OTHER -> {"a", "A", "b", "salt", "Salt", "olive oil", "crE2me", "E4"}
+           [] OTHER -> {"a", "A", "b", "salt", "Salt", "olive oil", "crE2me", "crU2me", "E4"}
 SingleWord(n) == n \notin {"olive oil", "frying pan"}
 \* "NSP" is the blank inside a two-word name: a chunk of its own so that C17 can put a comment or a line break there
-NameChunks(n) == CASE n = "crE2me" -> <<"cr", "E2", "me">> [] n = "olive oil" -> <<"olive", "NSP", "oil">>
+NameChunks(n) == CASE n = "crE2me" -> <<"cr", "E2", "me">> [] n = "crU2me" -> <<"cr", "U2", "me">> [] n = "olive oil" -> <<"olive", "NSP", "oil">>
                    [] n = "frying pan" -> <<"frying", "NSP", "pan">> [] OTHER -> <<n>>
 ModSets == IF ~Has("MODIFIERS") THEN {{}}
            ELSE CASE Kernel \in {"ref", "cw"} -> {{}, {"ref"}, {"new"}, {"hidden"}, {"opt"}, {"ref", "opt"}, {"ref", "new"}, {"ref", "new", "opt"}}
@@ -57,9 +57,11 @@ Frac(wh, n, d) == [t |-> "frac", w |-> wh, n |-> n, d |-> d]
 Rng(x, y) == [t |-> "range", a |-> x, b |-> y]
 Txt(s) == [t |-> "text", s |-> s]
 Values == CASE Kernel \in {"ref", "cw", "struct", "switch", "defect"} -> {Num("2")}
-            [] OTHER -> {Num("2"), Num("1.5"), Num("250"), Frac(0, 1, 2), Frac(1, 3, 4), Txt("some"), Txt("a pinch"), Txt("2 large"),
+            [] OTHER -> {Num("2"), Num("1.5"), Num("250"), Frac(0, 1, 2), Frac(1, 3, 4), Txt("some"), Txt("a pinch"), Txt("2 large"), Txt("1 1/2 heaped"),
                          Rng(Num("2"), Num("3")), Rng(Num("1.5"), Frac(0, 7, 2))}
-Units == IF Kernel = "full" THEN {"", "", "g", "kg", "ml", "cups", "tsp", "bag", "min"} ELSE {""}
+Units == IF Kernel = "full" THEN {"", "", "g", "kg", "ml", "cups", "tsp", "bag", "min", "fl oz"} ELSE {""}
+\* the blank inside a two-word unit is a mark ("SP") where C17 may put a block comment
+UnitChunks(u) == IF u = "fl oz" THEN <<"fl", "SP", "oz">> ELSE <<u>>
 TimeUnits == {"min", "h", "minutes", "s"}
 \* (an alias may spell the name of another component: references go by name, never by alias)
 Aliases == IF Syn("ALIAS") /\ Kernel = "full" THEN {"", "", "oil", "salt"} ELSE {""}
@@ -105,14 +107,15 @@ AdvUsed(q, sp) == q # NoQ /\ sp.adv /\ CanAdv(q)
 QtyChunks(q, sp0) ==
   LET sp == IF (q.v.t = "range" /\ ~Has("RANGE")) \/ (AdvUsed(q, sp0) /\ ~Has("ADVANCED_UNITS")) THEN [sp0 EXCEPT !.rs = "", !.fs = ""] ELSE sp0 IN
      <<sp.pad>> \o (IF q.lock THEN <<"=", sp.ws>> ELSE <<>>) \o ValChunks(q.v, sp)
-  \o (IF q.unit = "" THEN <<>> ELSE IF sp.adv /\ CanAdv(q) THEN <<" ", q.unit>> ELSE <<sp.ws, "%", sp.ws, q.unit>>)
+  \o (IF q.unit = "" THEN <<>> ELSE IF sp.adv /\ CanAdv(q) THEN <<" ">> \o UnitChunks(q.unit) ELSE <<sp.ws, "%", sp.ws>> \o UnitChunks(q.unit))
   \o <<sp.pad>>
 \* how the quantity reads: a unit after a blank instead of `%` is part of a text value unless ADVANCED_UNITS
 ReadQty(q) == IF q = NoQ THEN NoQ ELSE [v |-> ReadVal(q.v), unit |-> q.unit, lock |-> q.lock]
 \* a text value that starts with a number and has no `%` unit is "number unit" for ADVANCED_UNITS
 \* (the scaling lock `=` is read before the split, so it stays on the number)
-NumberLed(q) == q # NoQ /\ q.v = Txt("2 large") /\ q.unit = ""
-ReadQtySp(q, sp) == IF NumberLed(q) /\ Has("ADVANCED_UNITS") THEN [v |-> Num("2"), unit |-> "large", lock |-> q.lock]
+NumberLed(q) == q # NoQ /\ q.v \in {Txt("2 large"), Txt("1 1/2 heaped")} /\ q.unit = ""
+ReadQtySp(q, sp) == IF NumberLed(q) /\ Has("ADVANCED_UNITS")
+                    THEN (IF q.v = Txt("2 large") THEN [v |-> Num("2"), unit |-> "large", lock |-> q.lock] ELSE [v |-> Frac(1, 1, 2), unit |-> "heaped", lock |-> q.lock])
                     ELSE IF AdvUsed(q, sp) /\ ~Has("ADVANCED_UNITS")
                     THEN [v |-> Txt(Flat(ValChunks(q.v, Canon), 1) \o " " \o q.unit), unit |-> "", lock |-> q.lock]
                     ELSE ReadQty(q)
@@ -139,7 +142,7 @@ CompChunks(kind, c, sp) ==
   \o (IF c.note # "" THEN <<"(", c.note, ")">> ELSE <<>>)
 
 (* ---- byte offsets of what has been written (labels of diagnostics are byte spans) -------------------- *)
-ChunkBytes(c) == CASE c \in {"LF", "CR", "BS", "QUOTE", "TAB", "SP", "NSP"} -> 1 [] c = "GAP" -> 0 [] c \in {"E2", "DEG", "NBSP"} -> 2 [] c = "E4" -> 4 [] OTHER -> Len(c)
+ChunkBytes(c) == CASE c \in {"LF", "CR", "BS", "QUOTE", "TAB", "SP", "NSP"} -> 1 [] c = "GAP" -> 0 [] c \in {"E2", "U2", "DEG", "NBSP"} -> 2 [] c = "E4" -> 4 [] OTHER -> Len(c)
 RECURSIVE BytesOf(_, _)
 BytesOf(cs, i) == IF i > Len(cs) THEN 0 ELSE ChunkBytes(cs[i]) + BytesOf(cs, i + 1)
 NoDefect == [class |-> "", sev |-> "", stage |-> "", s |-> 0, e |-> 0]
@@ -275,6 +278,9 @@ AddTimer == /\ InStep /\ w.nc < MaxComps /\ Kernel = "full"
 ParseDefects ==
   { [cs |-> <<"@{}">>, class |-> "EmptyName", sev |-> "error", needs |-> {}],
     [cs |-> <<"#{}">>, class |-> "EmptyName", sev |-> "error", needs |-> {}],
+    [cs |-> <<"@|flour{}">>, class |-> "EmptyName", sev |-> "error", needs |-> {"ALIAS"}],      \* (without ALIAS the name is `|flour`)
+    [cs |-> <<"#|pan{}">>, class |-> "EmptyName", sev |-> "error", needs |-> {"ALIAS"}],
+    [cs |-> <<"@ |wine{1}">>, class |-> "EmptyName", sev |-> "error", needs |-> {"ALIAS"}],
     [cs |-> <<"@a{1/0}">>, class |-> "DivisionByZero", sev |-> "error", needs |-> {}],
     [cs |-> <<"@a{2 1/0%g}">>, class |-> "DivisionByZero", sev |-> "error", needs |-> {}],
     [cs |-> <<"@a{1-3/0%g}">>, class |-> "DivisionByZero", sev |-> "error", needs |-> {"RANGE"}],
